@@ -70,7 +70,227 @@ def header_writer(prog, pv):
     return {"body": b, "magic": magic, "version": version, "order": order}
 
 
+def header_paths(prog, pv, b, input_param=1, limit=4000):
+    """all control-flow paths of the (loop-free) header reader under constraints on the input's constant-index bytes and its length:
+    list of dict(bytes {i: ('eq', v) | ('ne', frozenset)}, broken (a whole-magic comparison failed), magic (array compared as a whole),
+    len_lo, len_hi, result 'Ok' | 'Err' | None, variants, offsets)"""
+    INF = 10 ** 9
+
+    def chain(l):
+        """single `use` definitions back to the origin: yields definitions (kind, pos, d)"""
+        seen = set()
+        while l is not None and l not in seen:
+            seen.add(l)
+            ds = pv.defs(b).get(l, [])
+            if len(ds) != 1:
+                return
+            yield ds[0]
+            kind, pos, d = ds[0]
+            if kind == "assign" and d.rv["k"] in ("use", "cast") and d.rv["op"].place is not None and d.rv["op"].place.is_local():
+                l = d.rv["op"].place.local
+            else:
+                return
+
+    def is_input(l):
+        if l == input_param:
+            return True
+        return params_of(pv.of_local(b, l), b.id) == {input_param} and not any(a[0] == "call" for a in pv.of_local(b, l))
+
+    def const_of(op):
+        if op.kind == "const":
+            return op.int_value()
+        if op.place is not None and op.place.is_local():
+            for kind, pos, d in chain(op.place.local):
+                if kind == "assign" and d.rv["k"] == "use" and d.rv["op"].kind == "const":
+                    return d.rv["op"].int_value()
+        return None
+
+    def byte_index(pl):
+        es = [e for e in pl.fields() if e != "*"]
+        if len(es) != 1 or not is_input(pl.local):
+            return None
+        if es[0][0] == "cidx":
+            c = es[0][1]
+            return c if isinstance(c, int) else (c.get("offset") if not c.get("from_end") else None)
+        if es[0][0] == "idx":
+            for kind, pos, d in chain(es[0][1]):
+                if kind == "assign" and d.rv["k"] == "use" and d.rv["op"].kind == "const":
+                    return d.rv["op"].int_value()
+        return None
+
+    def is_len(op):
+        if op.place is None or not op.place.is_local():
+            return False
+        for kind, pos, d in chain(op.place.local):
+            if kind == "assign" and d.rv["k"] == "un" and d.rv.get("op") == "PtrMetadata":
+                return True
+            if kind == "call" and d.callee.method == "len" and len(d.args) == 1 and params_of(pv.of_operand(b, d.args[0]), b.id) == {input_param}:
+                return True
+        return False
+
+    def meaning(op):
+        """('byte', i) | ('len', op, c) (truth of `len op c`) | ('magic', vals, negated) | None"""
+        if op.place is None:
+            return None
+        if not op.place.is_local():
+            i = byte_index(op.place)
+            return ("byte", i) if i is not None else None
+        for kind, pos, d in chain(op.place.local):
+            if kind == "assign" and d.rv["k"] == "use" and d.rv["op"].place is not None and not d.rv["op"].place.is_local():
+                i = byte_index(d.rv["op"].place)
+                return ("byte", i) if i is not None else None
+            if kind == "assign" and d.rv["k"] == "bin" and d.rv["op"] in ("Lt", "Le", "Gt", "Ge", "Eq", "Ne"):
+                l, r = d.rv["l"], d.rv["r"]
+                if is_len(l) and const_of(r) is not None:
+                    return ("len", d.rv["op"], const_of(r))
+                if is_len(r) and const_of(l) is not None:
+                    return ("len", {"Lt": "Gt", "Le": "Ge", "Gt": "Lt", "Ge": "Le", "Eq": "Eq", "Ne": "Ne"}[d.rv["op"]], const_of(l))
+                return None
+            if kind == "call":
+                t = d
+                if (t.callee.trait == "std::cmp::PartialEq" and t.callee.method in ("eq", "ne") and len(t.args) == 2) or (t.callee.method == "starts_with" and len(t.args) == 2):
+                    for a in t.args:
+                        v = array_consts(prog, pv, b, a)
+                        if v:
+                            return ("magic", v, t.callee.method == "ne")
+                return None
+        return None
+
+    def len_branch(op, c, truth, lo, hi):
+        if not truth:
+            op = {"Lt": "Ge", "Le": "Gt", "Gt": "Le", "Ge": "Lt", "Eq": "Ne", "Ne": "Eq"}[op]
+        if op == "Lt":
+            hi = min(hi, c - 1)
+        elif op == "Le":
+            hi = min(hi, c)
+        elif op == "Gt":
+            lo = max(lo, c + 1)
+        elif op == "Ge":
+            lo = max(lo, c)
+        elif op == "Eq":
+            lo, hi = max(lo, c), min(hi, c)
+        return (lo, hi) if lo <= hi else None
+
+    out = []
+    stack = [(0, {}, False, None, 0, INF, None, frozenset(), frozenset(), frozenset())]
+    while stack:
+        if len(out) + len(stack) > limit:
+            return None
+        bi, by, broken, magic, lo, hi, result, variants, offsets, seen = stack.pop()
+        if bi in seen:
+            return None  # a loop: not a straight-line header reader
+        seen = seen | {bi}
+        blk = b.blocks[bi]
+        for st in blk.stmts:
+            if st.k != "assign":
+                continue
+            rv = st.rv
+            if rv["k"] == "agg" and rv.get("adt") == BV:
+                variants = variants | {rv["variant"]}
+            elif rv["k"] == "agg" and rv.get("adt", "").endswith("result::Result") and st.place.local == 0:
+                result = rv["variant"]
+            elif rv["k"] == "agg" and rv.get("adt", "").endswith("RangeFrom"):
+                c = const_of(rv["ops"][0])
+                if c is not None:
+                    offsets = offsets | {c}
+            elif rv["k"] == "ref" and is_input(rv["place"].local):
+                for e in rv["place"].proj:
+                    if isinstance(e, dict) and "sub_from" in e and e.get("from_end") and e.get("sub_to") == 0:
+                        offsets = offsets | {e["sub_from"]}
+        x = blk.term
+        if x.k == "return":
+            out.append({"bytes": by, "broken": broken, "magic": magic, "len_lo": lo, "len_hi": hi, "result": result, "variants": set(variants), "offsets": set(offsets)})
+            continue
+        if x.k != "switch":
+            for y in x.successors():
+                stack.append((y, by, broken, magic, lo, hi, result, variants, offsets, seen))
+            continue
+        m = meaning(x.discr)
+        if m is None:
+            for y in x.successors():
+                stack.append((y, by, broken, magic, lo, hi, result, variants, offsets, seen))
+        elif m[0] == "byte":
+            i = m[1]
+            cur = by.get(i)
+            listed = frozenset(v for v, _ in x.targets)
+            for v, tg in x.targets:
+                if cur is None or (cur[0] == "eq" and cur[1] == v) or (cur[0] == "ne" and v not in cur[1]):
+                    nb = dict(by)
+                    nb[i] = ("eq", v)
+                    stack.append((tg, nb, broken, magic, lo, hi, result, variants, offsets, seen))
+            if cur is None or cur[0] == "ne" or (cur[0] == "eq" and cur[1] not in listed):
+                nb = dict(by)
+                if cur is None:
+                    nb[i] = ("ne", listed)
+                elif cur[0] == "ne":
+                    nb[i] = ("ne", cur[1] | listed)
+                stack.append((x.otherwise, nb, broken, magic, lo, hi, result, variants, offsets, seen))
+        elif m[0] == "len":
+            for v, tg in x.targets + [(None, x.otherwise)]:
+                truth = (v != 0) if v is not None else not any(vv != 0 for vv, _ in x.targets)
+                r = len_branch(m[1], m[2], truth, lo, hi)
+                if r is not None:
+                    stack.append((tg, by, broken, magic, r[0], r[1], result, variants, offsets, seen))
+        else:
+            vals, neg = m[1], m[2]
+            for v, tg in x.targets + [(None, x.otherwise)]:
+                truth = (v != 0) if v is not None else not any(vv != 0 for vv, _ in x.targets)
+                equal = truth != neg
+                if equal:
+                    if any(by.get(i) is not None and ((by[i][0] == "eq" and by[i][1] != vals[i]) or (by[i][0] == "ne" and vals[i] in by[i][1])) for i in range(len(vals))):
+                        continue
+                    nb = dict(by)
+                    for i, vv in enumerate(vals):
+                        nb[i] = ("eq", vv)
+                    stack.append((tg, nb, broken, vals, lo, hi, result, variants, offsets, seen))
+                else:
+                    stack.append((tg, by, True, vals, lo, hi, result, variants, offsets, seen))
+    return out
+
+
 def header_reader(prog, pv):
+    """the header reader as a decision table (paths of `version` under byte constraints); the older shape-based reading is the fallback
+    for readers that delegate the version byte to a conversion function"""
+    b = prog.body(VERSION_FN)
+    if b is None:
+        return None
+    paths = header_paths(prog, pv, b)
+    if paths:
+        okp = [p for p in paths if p["result"] == "Ok" and p["bytes"] and all(c[0] == "eq" for c in p["bytes"].values()) and not p["broken"]]
+        magics = set()
+        for p in okp:
+            eqs = sorted(i for i, c in p["bytes"].items() if c[0] == "eq")
+            if p["magic"] is not None:
+                k = len(p["magic"])
+            else:
+                k = eqs[-1]
+            if eqs[:k] == list(range(k)) and p["bytes"].get(k, ("", 0))[0] == "eq":
+                magics.add((tuple(p["bytes"][i][1] for i in range(k)), k))
+            else:
+                magics.add(None)
+        if len(magics) == 1 and None not in magics:
+            magic, k = next(iter(magics))
+            arms, unknown, no_magic, no_magic_results, offs = {}, set(), set(), set(), set()
+            for p in paths:
+                full = all(p["bytes"].get(i) == ("eq", magic[i]) for i in range(k))
+                brk = p["broken"] or p["len_hi"] < k or any(p["bytes"].get(i) is not None and (p["bytes"][i][0] == "ne" or p["bytes"][i][1] != magic[i]) for i in range(k))
+                if full and not p["broken"]:
+                    c = p["bytes"].get(k)
+                    if c is not None and c[0] == "eq" and p["result"] == "Ok":
+                        arms.setdefault(c[1], set()).update(p["variants"])
+                        offs |= p["offsets"]
+                    elif c is None or c[0] == "ne":
+                        unknown.add(p["result"])
+                elif brk:
+                    no_magic |= p["variants"] if p["result"] == "Ok" else set()
+                    no_magic_results.add(p["result"])
+            if arms:
+                return {"body": b, "magic": list(magic), "arms": arms, "otherwise": None, "unknown": unknown, "switch_bb": None, "no_magic": no_magic,
+                        "no_magic_results": no_magic_results, "payload_offsets": offs, "paths": len(paths)}
+    return header_reader_shape(prog, pv)
+
+
+def header_reader_shape(prog, pv):
     b = prog.body(VERSION_FN)
     if b is None:
         return None
